@@ -442,7 +442,7 @@ fn main() {
         Family::new(
             "f2-loop",
             fam::f2_items(thorough),
-            "68 loop configurations x 16 iterables; nested once: 68 x 68 configurations x (16 x 16 iterables + inner loop over the outer element x 16); x 3 placements",
+            "68 loop configurations x 16 iterables; nested once: 68 x 68 configurations x (16 x 16 iterables + inner loop over the outer element x 16); 68 configurations x 8 containers holding an undefined element (only / first / middle / last), the element printed through `default`; x 3 placements",
         ),
         |item, acc: &mut Acc| {
             let mut n = 0u64;
